@@ -61,6 +61,10 @@ def check(ctx, rep):
         W.rule_M10(m, rep)
         W.rule_M11(m, rep)
     S.rule_D2(ctx, rep)
+    # adapters: each write is one whole datagram (A1), Ok only if the socket took it (E1), capacity / terminator (A2, A3)
+    S.rule_A1(ctx, rep)
+    S.rule_E1(ctx, rep)
+    S.rule_A2_A3(ctx, rep)
     # through a queuing wrapper only the worker thread may feed the buffered sink (one sequential consumer)
     from .qmodel import QModel
     from . import queuing as Qr
